@@ -12,7 +12,7 @@
 (*   Mode "ext"   : the same over a wider option set and value classes.       *)
 (*   Mode "rtable", "dense": random cases for -simulate (full product of the  *)
 (*                  table; random texts for random options in every layer).   *)
-EXTENDS ClientConfig, Json, Randomization
+EXTENDS ClientConfig, Json, Randomization, FiniteSetsExt
 
 CONSTANTS Mode, Vocab, MaxWeight
 
@@ -82,16 +82,17 @@ EnvText(n, cls) ==
       [] cls = "W:insights.client.apps.x" -> "insights.client.apps.x"
       [] cls = "W:malware-detection" -> "malware-detection" [] cls = "W:nosuchapp" -> "nosuchapp"
       [] OTHER -> "alpha"
-Weight(e) == Cardinality({n \in DOMAIN e : e[n] # D})
-EffCases(opts) == {e \in [opts -> {D, "X"}] : Weight(e) <= MaxWeight}
-(* expand the X of an assignment into each non-default class of the option *)
-Expand(e) == {f \in [DOMAIN e -> {D, "T", "F", "P", "E", "W:xz", "W:zip", "W:os", "W:insights.client.apps.x",
-                                  "W:malware-detection", "W:nosuchapp", "W:alpha"}] :
-                 \A n \in DOMAIN e : IF e[n] = D THEN f[n] = D ELSE f[n] \in Classes(n)}
+(* assignments: a set A of at most MaxWeight options leaves the default, each *)
+(* with one of its non-default classes                                        *)
+RECURSIVE Prod(_)
+Prod(A) == IF A = {} THEN {[m \in {} |-> D]}
+           ELSE LET n == CHOOSE x \in A : TRUE IN
+                {[m \in DOMAIN f \cup {n} |-> IF m = n THEN c ELSE f[m]] : f \in Prod(A \ {n}), c \in Classes(n)}
+EffCases(opts) == UNION {Prod(A) : A \in UNION {kSubset(k, opts) : k \in 0..MaxWeight}}
 LayOfEff(f) == [fstate |-> "ok", file |-> {},
-                env |-> {[name |-> n, text |-> EnvText(n, f[n])] : n \in {m \in DOMAIN f : f[m] # D}},
+                env |-> {[name |-> n, text |-> EnvText(n, f[n])] : n \in DOMAIN f},
                 cli |-> {}]
-EffSet(f) == {[name |-> n, cls |-> f[n]] : n \in {m \in DOMAIN f : f[m] # D}}
+EffSet(f) == {[name |-> n, cls |-> f[n]] : n \in DOMAIN f}
 
 VARIABLES eff        \* the abstract assignment of a table case ({} otherwise)
 mcvars == <<vars, eff>>
@@ -105,15 +106,15 @@ Pick ==
     /\ phase = "pick"
     /\ CASE Mode = "prec"   -> \E l \in PrecCases : Start(l, {})
          [] Mode = "unk"    -> \E l \in UnkCases : Start(l, {})
-         [] Mode = "table"  -> \E e \in EffCases(TableOpts) : \E f \in Expand(e) : Start(LayOfEff(f), EffSet(f))
-         [] Mode = "ext"    -> \E e \in EffCases(ExtOpts) : \E f \in Expand(e) : Start(LayOfEff(f), EffSet(f))
-         [] Mode = "rtable" -> \E f \in One([n \in TableOpts |-> RandomElement({D} \cup Classes(n))]) :
-                                   Start(LayOfEff(f), EffSet(f))
+         [] Mode = "table"  -> \E f \in EffCases(TableOpts) : Start(LayOfEff(f), EffSet(f))
+         [] Mode = "ext"    -> \E f \in EffCases(ExtOpts) : Start(LayOfEff(f), EffSet(f))
+         [] Mode = "rtable" -> \E A \in {RandomSubset(RandomElement(0..Cardinality(TableOpts)), TableOpts)} :
+                               \E f \in One(Prod(A)) : Start(LayOfEff(f), EffSet(f))
          [] Mode = "dense"  ->
               \E fs \in One({"ok", "ok", "ok", "ok", "missing", "nosection"}),
-                 fl \in One(RandLayer(Focus, FileWords)),
-                 en \in One(RandLayer(Focus, EnvWords)),
-                 cn \in One(RandomSubset(RandomElement(0..3), {n \in Focus : CliKind(n) # "none"})) :
+                 fl \in {RandLayer(Focus, FileWords)},
+                 en \in {RandLayer(Focus, EnvWords)},
+                 cn \in {RandomSubset(RandomElement(0..3), {n \in Focus : CliKind(n) # "none"})} :
                  Start([fstate |-> fs, file |-> fl, env |-> en,
                         cli |-> {LET c == RandomElement(CliForms(n)) IN [name |-> n, has |-> c.has, arg |-> c.arg] : n \in cn}], {})
          [] OTHER -> FALSE
